@@ -9,9 +9,17 @@ PROP = {'lean_props': ['Comrak.Props.C03'],
                        'refHtml_eq_renderHtml_of_safe',
                        'shape_canon',
                        'block_canon',
-                       'inlines_canon'],
- 'strength': 'partial (_canon): proved for every document of the canonical class (unbounded depth and size); the class is not the whole '
-             'language, and the parser step (parse_document (write d) = toTree d) is the correspondence, checked on every run, not a theorem',
+                       'inlines_canon',
+                       'table_canon',
+                       'items_canon',
+                       'footnotes_canon',
+                       'toTreeP_erase_canon'],
+ 'strength': 'partial (_canon): proved for every document of the canonical class (unbounded depth and size; every construct the property '
+             'names: paragraphs, ATX/setext headings, thematic breaks, fenced and indented code, block quotes, tight/loose bullet and ordered lists, '
+             'task items, GFM tables with alignments, HTML blocks (start condition 6, safe mode), footnote definitions and references with the '
+             'footnote section and its back-links, emphasis, strong, strikethrough, code spans, inline/reference links, images, autolinks, breaks, '
+             'entities, escapes); the class is not the whole language, and the parser step (parse_document (write d) = toTree d) is the '
+             'correspondence, checked on every run, not a theorem',
  'trusted_base': ["recursive renderT/renderF stand for comrak's explicit work-stack traversal (exercised by the correspondence on deep and wide "
                   'trees, not proved)',
                   'the model of html.rs (Comrak/Html.lean) is tied to the real formatter by the shared renderer correspondence of C10/C02 and, '
@@ -21,21 +29,28 @@ PROP = {'lean_props': ['Comrak.Props.C03'],
                   'not vendored in this tree, so the reading was from memory of the published specification',
                   'Doc.ok (Comrak/Canon/Ok.lean) is an executable side condition; that it really excludes every ambiguity is what K tests '
                   '(write_lines_wf is not proved)'],
- 'assumptions': ['default options plus extension.strikethrough (needed by ~~..~~); HTML blocks, tables, task items, footnotes are not in the class']}
+ 'assumptions': ['default options plus the extensions strikethrough, table, tasklist, footnotes (needed by the constructs); footnote definitions are '
+                 'one paragraph each, footnote names letters and digits; HTML blocks of start condition 6 only']}
 
 TEXT = {'text': 'Proof + correspondence. Lean defines an inductive type Doc of canonical Markdown documents (paragraph, ATX and setext heading, thematic '
          'break, fenced and indented code, block quote, tight/loose bullet and ordered lists of any nesting; text with backslash escapes, '
          'named/numeric character references and multi-byte characters, code spans, emphasis, strong, GFM strikethrough, inline links with titles '
          'and reference links (definitions before or after use, label case variants, shadowed duplicate definitions), images, autolinks, hard and '
-         'soft breaks), an independent canonical writer Doc.write, the comrak AST the document spells (Doc.toTree), an independent reference '
+         'soft breaks, footnote references), an independent canonical writer Doc.write, the comrak AST the document spells (Doc.toTree), an independent reference '
          'renderer Doc.refHtml written from the specification, and a decidable side condition Doc.ok that makes the spelling unambiguous. '
          "Theorem refHtml_eq_renderHtml_canon: for EVERY d with Doc.ok d (any depth, tightness, start number, fence length) the complete model of "
          "comrak's HTML formatter applied to toTree d writes exactly refHtml d (mutual structural induction over blocks/items/inlines with the "
          'last_was_lf state threaded); shape_canon: toTree d satisfies the C04 shape predicate. Tie to the code on every run: the driver generates '
          'd from a PRNG (so the executed write/toTree/refHtml are the proved definitions); K: the real parse_document(write d), position-free, '
-         'equals toTree d field for field; S: the real markdown_to_html(write d) equals refHtml d. Known finding: a blank line that follows a '
-         'thematic break inside a list item is not registered when tightness is decided, so such a list is rendered tight where the '
-         'specification says loose (excluded from Doc.ok, replayed on every run). Observation (not a finding, the spec leaves info strings '
+         'equals toTree d field for field, and for every node of a kind comrak documents as position-reliable (not lists / items) its real '
+         'source position equals the line/column span Doc.toTreeP d computes from the writer\'s layout (toTreeP_erase_canon: toTreeP d is toTree d '
+         'with positions filled in; unclaimed: indented code blocks, inlines of cells containing \\| - '
+         'comrak\'s positions for these are off, C11/C12 findings); the driver evaluates the C11/C12 oracles (range, nesting, order, slice) on '
+         'the claimed positions of every generated document (Doc.posOk, reported, not proved for all d); S: the real markdown_to_html(write d) equals refHtml d. Known findings (each excluded from Doc.ok by a named clause, re-observed by directed probes and replays on every run): a blank '
+         'line that follows a thematic break inside a list item is not registered when tightness is decided, so such a list is rendered tight '
+         'where the specification says loose; a table without body rows inside a list item makes the list loose although no blank line is '
+         'present (the consumed delimiter row is taken for a blank line); with the tasklist extension an item whose text merely reads "[x] a" '
+         'after unescaping (written \\[x\\] a or &#91;x] a) is turned into a task item. Observation (not a finding, the spec leaves info strings '
          'open): an info string that is exactly "math" gets an extra data-math-style attribute with every extension off; excluded by Doc.ok, '
          'necessity shown by math_info_counterexample.',
  'note': 'Trusted: Lean kernel + standard axioms; harness/driver; the reading of the specification in Ref.lean; Doc.ok as the definition of '
